@@ -5,6 +5,7 @@ from d3vc.engine import contract
 from d3vc import spec
 from d3vc.spec import dot, sq
 from contracts._shapes import SHAPES
+import contracts._aabb_proofs  # noqa: F401  (installs witnesses / hints on the shape specs)
 
 FREE = {"cylinder": "cylinder_aabb", "capsule": "capsule_aabb", "ellipsoid": "ellipsoid_aabb", "box": "box_aabb", "cone": "cone_aabb",
         "sphere": "sphere_aabb", "disk": "disk_aabb", "ellipse": "ellipse_aabb"}
@@ -29,22 +30,20 @@ def make(shape):
         cx.canary("strict[%d]" % k, cx.lt(x[k], bb[k, 1]))
         cx.cover("end")
 
-    @contract("colliders.%s.aabb/tight" % K, fn=shape.cls + ".aabb", props=["C04"], deps=deps + [shape.cls + ".support_function"],
-              opts=dict(abs_ite=True, minmax_ite=True))
+    @contract("colliders.%s.aabb/tight" % K, fn=shape.cls + ".aabb", props=["C04"], deps=deps, opts=dict(abs_ite=True, minmax_ite=True))
     def _tight(cx):
-        """each bound is attained by a point of the shape (witness: the class's own support point along +-e_k, whose
-        membership is re-proved here)"""
-        P = shape.params(cx)
+        """each of the six bounds is attained by a point of the shape (witness given in the shape's local frame by the
+        contract; its membership and the equality with the returned bound are the obligations)"""
+        P = shape.params(cx, reduce=None)
         obj = shape.build(cx, P)
         bb = cx.call(obj.aabb)
         k = cx.choice(3, "axis")
         sgn = cx.choice(2, "side")
-        e = np.zeros(3)
-        e[k] = 1.0 if sgn == 1 else -1.0
-        e = e.astype(object) if cx.mode == "sym" else e
-        p = cx.call(obj.support_function, e)
-        cx.prove("witness_member", shape.member(cx, P, p))
-        cx.prove("attained[%d,%s]" % (k, "hi" if sgn == 1 else "lo"), cx.eq(p[k], bb[k, sgn]))
+        p = shape.aabb_witness(cx, P, k, 1.0 if sgn == 1 else -1.0)
+        use = shape.aabb_hints(cx, P, k, None, bb)
+        cx.prove("witness_member", shape.member_of_witness(cx, P, p), use=use)
+        xw = shape.witness_world(cx, P, p)
+        cx.prove("attained[%d,%s]" % (k, "hi" if sgn == 1 else "lo"), cx.eq(xw[k], bb[k, sgn]), use=use)
         cx.cover("end")
 
 
